@@ -24,7 +24,7 @@ import (
 // identifiers used in bodies are its parameters or live in HelpersGo.
 const TestSig = "t(s string, b bool, vs []string)"
 
-// HelpersGo is a Go file that makes packages of generated files compile (the
+// HelpersGo is a Go file with the components the matrix cells call (the
 // compile-and-render sample of the thorough tier writes it next to them).
 const HelpersGo = `package main
 
@@ -35,26 +35,13 @@ import (
 	"github.com/a-h/templ"
 )
 
-var (
-	at  = templ.Attributes{"data-at": "1"}
-	st  = stT{}
-	v   = templ.Raw("<b>v</b>")
-	_   = at
-)
+func c() templ.Component { return templ.Raw("<b>c</b>") }
 
-type stT struct{}
-
-func (stT) c() templ.Component { return c() }
-
-type comp struct{ A string }
-
-func (x comp) Render(ctx context.Context, w io.Writer) error { _, err := io.WriteString(w, x.A); return err }
-
-func c() templ.Component                 { return templ.Raw("<b>c</b>") }
-func c2(s string, b bool) templ.Component { return templ.Raw("<b>c2</b>") }
 func w() templ.Component {
 	return templ.ComponentFunc(func(ctx context.Context, wr io.Writer) error {
-		io.WriteString(wr, "<u>")
+		if _, err := io.WriteString(wr, "<u>"); err != nil {
+			return err
+		}
 		if err := templ.GetChildren(ctx).Render(templ.ClearChildren(ctx), wr); err != nil {
 			return err
 		}
@@ -62,12 +49,6 @@ func w() templ.Component {
 		return err
 	})
 }
-func w2(s string) templ.Component       { return w() }
-func f(s string) string                 { return s }
-func f2(s string) templ.Attributes      { return templ.Attributes{"data-f": s} }
-func g(s string) (string, error)        { return s, nil }
-func js(s string) templ.ComponentScript { return templ.ComponentScript{Name: "js", Function: "function js(){}", Call: "js()", CallInline: "js()"} }
-func cl() templ.CSSClass                { return templ.ConstantCSSClass("cl") }
 `
 
 // LeafKinds is the node-kind alphabet of the matrix, in canonical spelling.
@@ -358,6 +339,9 @@ func CellList() []Cell {
 	add("attr-expr-multi-trailing-comma-inline", "<div title={ \"a\",\n\"b\", }>x</div>")
 	add("attr-expr-leadcomment", `<div title={ /* c */ s }>x</div>`)
 	add("attr-expr-linecomment-tail", "<div title={ \"a\", // c\n}>x</div>")
+	add("attr-expr-action-linecomment", "<form action={ templ.URL(s) // c\n}>x</form>")
+	add("attr-expr-href-linecomment", "<a href={ templ.URL(s) // c\n}>x</a>")
+	add("attr-expr-ident-linecomment-tail", "<div title={ s, // c\n}>x</div>")
 	add("attr-expr-two", `<div class={ "a", templ.KV("b", b) }>x</div>`)
 	add("attr-expr-error", `<div title={ g(s) }>x</div>`)
 	add("attr-expr-rawstring", "<div title={ `a\"b` }>x</div>")
@@ -461,6 +445,8 @@ func CellList() []Cell {
 	add("call-join", `@templ.Join(c(), c())`)
 	add("legacycall-args", `{! c2(s, b) }`)
 	add("legacycall-in-if", "if b {\n{! c() }\n}")
+	add("legacycall-leadcomment-newline", "{! \n/* c */c() }")
+	add("legacycall-leadcomment", "{! /* c */ c() }")
 	add("legacycall-multi", "{! c2(\ns,\nb) }")
 	// --- raw go
 	add("gocode-unformatted", `{{ v:=1 }}`)
